@@ -59,6 +59,9 @@ PATHS = [
     ["/app", "/x"],
     ["/caf%C3%A9", "/a%20b", "/z"],  # two-byte UTF-8 sequence, escaped space
     ["/%E2%82%AC", "/app", "/y%2Fz"],  # three-byte UTF-8 sequence, escaped slash
+    ["/api", "/v1", "/api", "/users"],  # the prefix text occurs again further down the path
+    ["/a", "/a"],
+    ["/api", "/%61pi"],  # ... or does so after unquoting
 ]
 HEADER_SETS: List[List[Tuple[str, str]]] = [
     [],
